@@ -770,9 +770,8 @@ struct DoubleSize<Number_T, 64U> {
         // -----------------------
         if (original_dividend_high > dividend_high) {
             // Overflow
-            constexpr Number_T overflow_dividend = (Number_T{1} << (width_ - 1U));
-
-            dividend_high += ((overflow_dividend % (divisor >> 1U)) << 1U);
+            // The true remainder is (2^64 + dividend_high), which is below 2 * divisor: subtract the divisor once (wraps).
+            dividend_high -= divisor;
             ++dividend_low;
         }
 
